@@ -747,8 +747,15 @@ func (k *c09) checkReturnShape(t *Terminal, fn *ssa.Function) {
 	label := "return " + labelShape(res, errv)
 	_, resIsPtr := res.Type().Underlying().(*types.Pointer)
 	_, resIsIface := res.Type().Underlying().(*types.Interface)
+	errNil := isNilConst(errv)
+	if !errNil {
+		// single-exit style: `return x, err` on a path that has established err == nil
+		if isNil, known := t.eqFact(errv, nilOf(errv.Type())); known && isNil {
+			errNil = true
+		}
+	}
 	switch {
-	case isNilConst(errv):
+	case errNil:
 		if resIsPtr || resIsIface {
 			if ok, why := k.nonNil(t, len(t.St.facts), res); ok {
 				c.ok("C09-R4", fname, label, pos, "nil error with non-nil result ("+why+")")
